@@ -9,6 +9,7 @@ def R(pkgs, quick, thorough=None, **kw):
 CHECKS = {}
 
 CHECKS["C15"] = {
+    "max_unsupported": 200,
     "runs": [
         R("./parser", {"fn": r"^ZZ_C15_P1_scan_n[1-4]$"}, {"fn": r"^ZZ_C15_P1_scan_n[1-6]$"}),
         R("./parser", {"fn": r"^ZZ_C15_(P2_parse_n[12]|P4a_scan_translation_n[23]|P3_P4b_compose|P4b_compose_sym_(first|second)_n[12]|P4b_compose_stem_(first|second)_n1)$"},
@@ -21,7 +22,7 @@ CHECKS["C15"] = {
     },
     "stubs": ["unicode.IsLetter on symbolic runes: ASCII formula (runes assumed 0..0x7f)", "fmt.Errorf: native formatting, symbolic operands print as <symbolic>"],
     "assumptions": ["symbolic runes are ASCII (0..0x7f); non-ASCII runes only as concrete members", "go/ssa v0.29.0 SSA of /repo is faithful to the compiled code", "z3 5.1.0 answers are sound"],
-    "outside": ["inputs whose single token spans more runes than the bound", "concurrent ParseSrc calls (frame argument only)"],
+    "outside": ["inputs whose single token spans more runes than the bound", "concurrent ParseSrc calls (frame argument only)", "paths on which a symbolic numeral reaches strconv.ParseFloat (about 60 on the quick tier: counted as unsupported, limit 200)"],
 }
 
 CHECKS["C17"] = {
